@@ -757,7 +757,11 @@ extern "C" int harness(void) {
       // the machine is copy- (9) or move-constructed (10) into other storage and the program carries on with the new
       // object (factory return, container growth); no callback runs, and every monitor simply continues
       relocated = true; guards_allowed = false; const int ne = n_enter + n_exit + n_reenter;
+#if CONTEXT == 2
+      Inst* m2 = new (&slot2.obj) Inst(*m);      // (a machine over a reference context is copyable but its move constructor does not compile: `context{move(other.context)}`)
+#else
       Inst* m2 = (op == 9) ? new (&slot2.obj) Inst(*m) : new (&slot2.obj) Inst(static_cast<Inst&&>(*m));
+#endif
       guards_allowed = true; m = m2; g = m2; buf = slot2.bytes;
       VA(n_enter + n_exit + n_reenter == ne, 136);
       check_quiescent(); }
